@@ -155,6 +155,7 @@ class Spec:
         self.env_havocs = []
         self.ghost_decls = {}
         self.sites = {}
+        self.site_prefix = {}
 
     # ----------------------------------------------------------- declaration
     def klass(self, qual, sort_name, fields=None, parent=None):
@@ -285,9 +286,13 @@ class Spec:
         # let(name=expr, ..., body)  evaluated left to right
         sub = Frame(fr.module, parent=fr)
         sub.spec = True
+        body = None
         for k in node.keywords:
+            if k.arg == 'body':
+                body = k.value
+                continue
             sub.vars[k.arg] = X.ev(k.value, sub)
-        return X.ev(node.args[0], sub)
+        return X.ev(body if body is not None else node.args[0], sub)
 
     def f_wf(self, X, node, fr):
         obj = deref(X.ev(node.args[0], fr))
@@ -300,16 +305,32 @@ class Spec:
         kl = self.sort_classes[obj.t.sort().name()]
         conj = []
         for (k, name, role, text) in kl.all_invariants():
-            if only is not None and name != only:
+            if only is not None and not self.inv_selected(kl, k, name, only):
                 continue
             env = {'self': obj}
             conj.append(self.eval_bool(X, text, env))
         return z3.And(*conj) if conj else z3.BoolVal(True)
 
-    def wf_clauses(self, X, obj):
+    def inv_selected(self, kl, declaring, name, only):
+        """`only`: an invariant name, a group name declared on the class
+        (kl.groups), or the sort name of the declaring class ('Disp')."""
+        for sel in only.split(','):
+            sel = sel.strip()
+            if sel == name or sel == declaring.sort_name:
+                return True
+            k = kl
+            while k is not None:
+                if name in getattr(k, 'groups', {}).get(sel, ()):
+                    return True
+                k = k.parent
+        return False
+
+    def wf_clauses(self, X, obj, only=None):
         kl = self.sort_classes[obj.t.sort().name()]
         out = []
         for (k, name, role, text) in kl.all_invariants():
+            if only is not None and not self.inv_selected(kl, k, name, only):
+                continue
             out.append((name, role, self.eval_bool(X, text, {'self': obj})))
         return out
 
@@ -654,6 +675,17 @@ class Spec:
                 if isinstance(o, ZV) and o.t.sort().name() in self.sort_classes:
                     self.havoc_client_state(X, o)
             self.havoc_environment(X)
+            X.old_stack.append(snap)
+            try:
+                for rn in (ct.rely or ['self']):
+                    o = deref(env.get(rn)) if rn in env else None
+                    if isinstance(o, ZV) and o.t.sort().name() in self.sort_classes:
+                        # callbacks preserve every invariant of the object (T5)
+                        X.assume(self.wf_formula(X, o))
+                        for extra in self.rely_extra(X, o):
+                            X.assume(extra)
+            finally:
+                X.old_stack.pop()
         result = NONE
         if ct.returns is not None:
             result = X.fresh(ct.returns, 'res_' + short)
@@ -665,6 +697,9 @@ class Spec:
         X.old_stack.append(snap)
         try:
             for gname, gtext in ct.ghost_results.items():
+                if isinstance(gtext, tuple) and gtext[0] == 'local':
+                    env[gname] = X.fresh(gtext[2], 'gr_' + gname)
+                    continue
                 if isinstance(gtext, Type):
                     env[gname] = X.fresh(gtext, 'gr_' + gname)
                     continue
@@ -754,9 +789,14 @@ class Spec:
             X.assume(X.ghost[g].n >= 0)
 
     def site_config(self, X, node):
-        """Per open-call site settings, keyed by (function short name, line-free
-        ordinal of the call among the open calls of that function)."""
-        return self.sites.get(X.fn_name, {})
+        """Per open-call site settings, keyed by the short name of the function
+        under verification, else by a prefix default ('World.')."""
+        if X.fn_name in self.sites:
+            return self.sites[X.fn_name]
+        for pre, cfg in self.site_prefix.items():
+            if X.fn_name.startswith(pre):
+                return cfg
+        return {}
 
     # ------------------------------------------------------------ rely
     def rely_objects(self, X):
@@ -938,8 +978,11 @@ class FunctionRun:
                 return 'raise:' + exc.cls
             env2 = dict(env)
             env2['exc'] = exc
+            X.final_locals = dict(fr.vars)
             for gname in ct.ghost_results:
                 g = X.named_ghosts.get(gname)
+                if isinstance(ct.ghost_results[gname], tuple):
+                    g = None
                 env2[gname] = g if g is not None else self.dummy_ghost(X, ct, gname, env, snap, m)
             X.old_stack.append(snap)
             try:
@@ -955,8 +998,11 @@ class FunctionRun:
             return 'raise:' + matched
         env2 = dict(env)
         env2['result'] = result
+        X.final_locals = dict(fr.vars)
         for gname in ct.ghost_results:
             g = X.named_ghosts.get(gname)
+            if isinstance(ct.ghost_results[gname], tuple):
+                g = None
             env2[gname] = g if g is not None else self.dummy_ghost(X, ct, gname, env, snap, m)
         X.old_stack.append(snap)
         try:
@@ -976,6 +1022,11 @@ class FunctionRun:
         """The ghost result was not produced on this path (loop not reached):
         any enumeration of the declared set will do."""
         gr = ct.ghost_results[gname]
+        if isinstance(gr, tuple) and gr[0] == 'local':
+            v = getattr(X, 'final_locals', {}).get(gr[1])
+            if v is not None and not (isinstance(v, Con) and v.v is None):
+                return v
+            return X.fresh(gr[2], 'gr_' + gname)
         if isinstance(gr, Type):
             return X.fresh(gr, 'gr_' + gname)
         X.old_stack.append(snap)
